@@ -90,12 +90,16 @@ pub enum K {
     MExtendIter,
     BIntoIter,
     MIntoIter,
+    BSliceBounds,
+    MExtendLie,
+    MExtendPanic,
+    MUninitApi,
 }
 pub const ALL_K: &[K] = &[
     K::Root, K::BClone, K::BSlice, K::BSliceIncl, K::BSliceRef, K::BSliceRefForeign, K::BSplitOff, K::BSplitTo, K::BTruncate, K::BClear,
     K::BAdvance, K::BCopyToBytes, K::BTryIntoMut, K::BIntoMut, K::BIntoVec, K::BDrop, K::MSplitOff, K::MSplitTo, K::MSplit, K::MTruncate,
     K::MClear, K::MAdvance, K::MResize, K::MReserve, K::MTryReclaim, K::MExtend, K::MPutU8, K::MWrite, K::MFillSpare, K::MUnsplit,
-    K::MFreeze, K::MIntoVec, K::MClone, K::MCopyToBytes, K::MDrop, K::MPutBytes, K::MPutBuf, K::MChunkMut, K::MWriteStr, K::MExtendIter, K::BIntoIter, K::MIntoIter,
+    K::MFreeze, K::MIntoVec, K::MClone, K::MCopyToBytes, K::MDrop, K::MPutBytes, K::MPutBuf, K::MChunkMut, K::MWriteStr, K::MExtendIter, K::BIntoIter, K::MIntoIter, K::BSliceBounds, K::MExtendLie, K::MExtendPanic, K::MUninitApi,
 ];
 pub fn k_from_str(s: &str) -> Option<K> {
     ALL_K.iter().cloned().find(|k| format!("{:?}", k) == s)
@@ -146,13 +150,15 @@ pub const R_MBIG: usize = 15;
 pub const R_BBIG: usize = 16;
 /// frozen unique shared BytesMut with a front offset
 pub const R_BFROZEN_OFF: usize = 17;
-pub const N_ROOTS: usize = 18;
+/// capacity >= 1024 so that the original-capacity classes are active: BytesMut::with_capacity(1024) + put n
+pub const R_MKILO: usize = 18;
+pub const N_ROOTS: usize = 19;
 pub fn root_name(r: usize) -> &'static str {
     [
         "Bytes::new", "Bytes::from_static", "Bytes::from(Vec len==cap)", "Bytes::from(Vec spare)", "Bytes::from(Box<[u8]>)", "Bytes::from_owner",
         "Bytes::copy_from_slice", "Bytes::from(Vec empty, cap 3)", "BytesMut::new", "BytesMut::with_capacity+put", "BytesMut::from(&[u8])", "BytesMut::zeroed",
         "BytesMut::from_iter", "Bytes::from_owner(as_ref panics)", "BytesMut shared+unique+offset", "BytesMut::with_capacity(128)+put", "Bytes::from(Vec cap 128)",
-        "Bytes frozen from shared+unique+offset BytesMut",
+        "Bytes frozen from shared+unique+offset BytesMut", "BytesMut::with_capacity(1024)+put",
     ][r]
 }
 
@@ -442,6 +448,11 @@ impl World {
                             m.put_slice(&d);
                             H::M(m)
                         }
+                        R_MKILO => {
+                            let mut m = BytesMut::with_capacity(1024);
+                            m.put_slice(&d);
+                            H::M(m)
+                        }
                         R_BBIG => {
                             let mut v = Vec::with_capacity(128);
                             v.extend_from_slice(&d);
@@ -510,7 +521,7 @@ impl World {
                     Ok(nb) => {
                         if !expect_panic {
                             let e = end.unwrap();
-                            let m = self.model(s)[a..e].to_vec();
+                            let m = mslice(self.model(s), a, e);
                             let f = self.fam(s);
                             if self.check && !nb.is_empty() && nb.as_ptr() as usize != pre[s].ptr + a {
                                 self.vio("C07", "slice-address", format!("slice({}..{}) starts at {:#x}, want source {:#x} + {}", a, e, nb.as_ptr() as usize, pre[s].ptr, a));
@@ -536,7 +547,7 @@ impl World {
                 let (sp, sl) = (self.slots[s].as_ref().unwrap().h.ptr(), self.slots[s].as_ref().unwrap().h.len());
                 let inside = sub_ptr >= sp && sub_ptr + sub_len <= sp + sl;
                 expect_panic = sub_len != 0 && !inside;
-                let sub_model: Vec<u8> = if op.k == K::BSliceRefForeign { FOREIGN.to_vec() } else { self.slots[t].as_ref().unwrap().model[a..b].to_vec() };
+                let sub_model: Vec<u8> = if op.k == K::BSliceRefForeign { FOREIGN.to_vec() } else { mslice(&self.slots[t].as_ref().unwrap().model, a, b) };
                 let r = self.call(|w| {
                     // SAFETY of the harness: the subset slice lives as long as slot t
                     let sub: &[u8] = unsafe { core::slice::from_raw_parts(sub_ptr as *const u8, sub_len) };
@@ -569,9 +580,9 @@ impl World {
                         if !expect_panic {
                             let f = self.fam(s);
                             let m = if off {
-                                self.model(s).split_off(at)
+                                msplit_off(self.model(s), at)
                             } else {
-                                let rest = self.model(s).split_off(at);
+                                let rest = msplit_off(self.model(s), at);
                                 std::mem::replace(self.model(s), rest)
                             };
                             if self.check {
@@ -614,7 +625,7 @@ impl World {
                 match r {
                     Ok(()) => {
                         if !expect_panic {
-                            self.model(s).drain(..n);
+                            mdrain(self.model(s), n);
                             self.addr_offset_if_nonempty(s, &pre, n, "advance");
                         }
                     }
@@ -629,7 +640,7 @@ impl World {
                     Ok(nb) => {
                         if !expect_panic {
                             let f = self.fam(s);
-                            let rest = self.model(s).split_off(n);
+                            let rest = msplit_off(self.model(s), n);
                             let head = std::mem::replace(self.model(s), rest);
                             self.put(H::B(nb), head, f);
                         } else {
@@ -658,6 +669,10 @@ impl World {
                                 }
                                 if Self::byte_buffer_allocated() {
                                     self.vio("C07", "into_mut-alloc", "Bytes->BytesMut of a unique buffer allocated a byte buffer".into());
+                                }
+                                // "returns the same memory": the sole owner keeps its allocation (also when its view is empty)
+                                if oracle::events().iter().any(|e| !e.is_alloc && e.align == 1) {
+                                    self.vio("C08", "into_mut-freed-storage", format!("Bytes->BytesMut of a uniquely held buffer released the byte buffer (freed align-1 blocks of {:?} bytes) instead of handing it to the BytesMut", oracle::events().iter().filter(|e| !e.is_alloc && e.align == 1).map(|e| e.size).collect::<Vec<_>>()));
                                 }
                             }
                         }
@@ -726,12 +741,12 @@ impl World {
                             let f = self.fam(s);
                             let m = if k == K::MSplitOff {
                                 if at <= l {
-                                    self.model(s).split_off(at)
+                                    msplit_off(self.model(s), at)
                                 } else {
                                     vec![]
                                 }
                             } else {
-                                let rest = self.model(s).split_off(at);
+                                let rest = msplit_off(self.model(s), at);
                                 std::mem::replace(self.model(s), rest)
                             };
                             if self.check {
@@ -778,7 +793,7 @@ impl World {
                 match r {
                     Ok(()) => {
                         if !expect_panic {
-                            self.model(s).drain(..n);
+                            mdrain(self.model(s), n);
                             self.addr_offset_if_nonempty(s, &pre, n, "advance");
                         }
                     }
@@ -960,7 +975,7 @@ impl World {
                     Ok(nb) => {
                         if !expect_panic {
                             let f = self.fam(s);
-                            let rest = self.model(s).split_off(n);
+                            let rest = msplit_off(self.model(s), n);
                             let head = std::mem::replace(self.model(s), rest);
                             self.put(H::B(nb), head, f);
                         } else {
@@ -1065,6 +1080,158 @@ impl World {
                     Err(()) => panicked = true,
                 }
             }
+            K::BSliceBounds => {
+                // slice() with explicit Bound pairs (exclusive starts exist only this way).
+                // t = mode: 0 (Excluded(a), Excluded(b)); 1 (Excluded(a), Included(b)); 2 (Excluded(a), Unbounded); 3 (Unbounded, Included(b)); 4 (Included(a), Unbounded)
+                zero_copy_listed = true;
+                use core::ops::Bound::*;
+                let (a, b, mode) = (op.a, op.b, op.t);
+                let l = pre_len(self, s);
+                let begin = match mode {
+                    0 | 1 | 2 => a.checked_add(1),
+                    3 => Some(0),
+                    _ => Some(a),
+                };
+                let end = match mode {
+                    0 => Some(b),
+                    1 | 3 => b.checked_add(1),
+                    _ => Some(l),
+                };
+                expect_panic = match (begin, end) {
+                    (Some(x), Some(y)) => x > y || y > l,
+                    _ => true,
+                };
+                let r = self.call(|w| match mode {
+                    0 => w.b(s).slice((Excluded(a), Excluded(b))),
+                    1 => w.b(s).slice((Excluded(a), Included(b))),
+                    2 => w.b(s).slice((Excluded(a), Unbounded)),
+                    3 => w.b(s).slice((Unbounded, Included(b))),
+                    _ => w.b(s).slice((Included(a), Unbounded)),
+                });
+                match r {
+                    Ok(nb) => {
+                        if !expect_panic {
+                            let (x, y) = (begin.unwrap(), end.unwrap());
+                            let m = mslice(self.model(s), x, y);
+                            let f = self.fam(s);
+                            if self.check && !nb.is_empty() && nb.as_ptr() as usize != pre[s].ptr + x {
+                                self.vio("C07", "slice-bounds-address", format!("slice(bounds mode {} a {} b {}) starts at {:#x}, want source {:#x} + {}", mode, a, b, nb.as_ptr() as usize, pre[s].ptr, x));
+                            }
+                            self.put(H::B(nb), m, f);
+                        } else {
+                            drop_in_subject(nb);
+                        }
+                    }
+                    Err(()) => panicked = true,
+                }
+            }
+            K::MExtendLie | K::MExtendPanic => {
+                // Extend<u8> with a user iterator: a = items really yielded, b = claimed lower bound of size_hint
+                // (MExtendLie: the hint lies, too small or too large; MExtendPanic: next() panics after a items).
+                // Vec semantics: exactly the yielded items are appended (a panic keeps what was yielded so far).
+                let d = self.fresh(op.a);
+                let (n, hint, boom) = (op.a, op.b, op.k == K::MExtendPanic);
+                struct It<'a> {
+                    d: &'a [u8],
+                    i: usize,
+                    hint: usize,
+                    boom: bool,
+                }
+                impl<'a> Iterator for It<'a> {
+                    type Item = u8;
+                    fn next(&mut self) -> Option<u8> {
+                        if self.i < self.d.len() {
+                            self.i += 1;
+                            Some(self.d[self.i - 1])
+                        } else if self.boom {
+                            panic!("iterator panics")
+                        } else {
+                            None
+                        }
+                    }
+                    fn size_hint(&self) -> (usize, Option<usize>) {
+                        (self.hint, None)
+                    }
+                }
+                let before = self.model(s).clone();
+                let r = self.call(|w| w.m(s).extend(It { d: &d, i: 0, hint, boom }));
+                let _ = n;
+                match r {
+                    Ok(()) => {
+                        if boom && self.check {
+                            self.vio("C01", "extend-swallowed-panic", "extend() returned although the iterator panicked".into());
+                        }
+                        self.model(s).extend_from_slice(&d);
+                    }
+                    Err(()) => {
+                        panicked = true;
+                        expect_panic = boom;
+                        if boom {
+                            // the handle must still be a consistent value: old contents followed by a prefix of what was yielded
+                            let mut want = before.clone();
+                            want.extend_from_slice(&d);
+                            let (readable, cur) = {
+                                let h = &self.slots[s].as_ref().unwrap().h;
+                                let (p, l) = (h.ptr(), h.len());
+                                let readable = l == 0 || oracle::find_live(p).map_or(false, |bi| {
+                                    let b = oracle::blocks()[bi];
+                                    p + l <= b.user + b.size
+                                });
+                                (readable, if readable { h.bytes().to_vec() } else { vec![] })
+                            };
+                            if readable && cur.len() >= before.len() && cur.len() <= want.len() && cur[..] == want[..cur.len()] {
+                                *self.model(s) = cur;
+                            } else {
+                                // left as is: the state oracles report the mismatch / the dangling view
+                                if self.check {
+                                    self.vio("C02", "extend-panic-state", format!("after a panic inside extend() the handle is not a consistent value (readable: {}, len {})", readable, cur.len()));
+                                }
+                                if readable {
+                                    *self.model(s) = cur;
+                                }
+                            }
+                        }
+                    }
+                }
+            }
+            K::MUninitApi => {
+                // safe UninitSlice API on the chunk handed out by chunk_mut(): a = 0 write_byte(len) must panic,
+                // a = 1 copy_from_slice of len+1 bytes must panic, a = 2 indexing [..len+1] must panic; nothing may be written
+                let mode = op.a;
+                expect_panic = true;
+                // the byte right behind the chunk (inside the block: a sibling's byte or spare; at its end: the allocator's red zone)
+                let behind: usize = {
+                    let h = &self.slots[s].as_ref().unwrap().h;
+                    h.ptr() + h.cap()
+                };
+                let known = oracle::find_live(behind.wrapping_sub(1)).is_some();
+                let before_byte = if known { unsafe { core::ptr::read_volatile(behind as *const u8) } } else { 0 };
+                let r = self.call(|w| {
+                    let m = w.m(s);
+                    let c = m.chunk_mut();
+                    let cl = c.len();
+                    match mode {
+                        0 => c.write_byte(cl, 0xF9),
+                        1 => {
+                            let src = vec![0xF9u8; cl + 1];
+                            c.copy_from_slice(&src)
+                        }
+                        _ => {
+                            let sub = &mut c[..cl + 1];
+                            sub.write_byte(cl, 0xF9)
+                        }
+                    }
+                });
+                if r.is_err() {
+                    panicked = true;
+                }
+                if self.check && known {
+                    let after_byte = unsafe { core::ptr::read_volatile(behind as *const u8) };
+                    if after_byte != before_byte {
+                        self.vio("C02", "uninit-slice-oob-write", format!("an out-of-range UninitSlice call (mode {}) on the chunk of a BytesMut wrote a byte behind the end of the chunk ({:02x} -> {:02x})", mode, before_byte, after_byte));
+                    }
+                }
+            }
         }
         self.last.panicked = panicked;
         if !self.check {
@@ -1088,7 +1255,7 @@ impl World {
                     self.vio("C13", "MTryReclaim-panic", format!("try_reclaim({}) panicked; it must answer true or false", op.a));
                 }
             }
-            if panicked {
+            if panicked && op.k != K::MExtendPanic {
                 // C13: every handle, including the target, is intact (only checkable for calls that
                 // borrow the handle; a consuming call that panics has lost it, which is reported above)
                 let post = self.snaps();
@@ -1323,6 +1490,19 @@ impl World {
             }
         }
     }
+}
+
+fn mslice(m: &[u8], a: usize, b: usize) -> Vec<u8> {
+    let b = b.min(m.len());
+    m[a.min(b)..b].to_vec()
+}
+fn msplit_off(m: &mut Vec<u8>, at: usize) -> Vec<u8> {
+    let at = at.min(m.len());
+    m.split_off(at)
+}
+fn mdrain(m: &mut Vec<u8>, n: usize) {
+    let n = n.min(m.len());
+    m.drain(..n);
 }
 
 fn pre_len(w: &World, s: usize) -> usize {
